@@ -298,7 +298,12 @@ fn parse_args() -> Args {
 pub fn main_for(mut p: impl Prop) {
     let args = parse_args();
     // keep panic messages out of stderr noise but still visible in logs
-    std::panic::set_hook(Box::new(|_| {}));
+    std::panic::set_hook(Box::new(|info| {
+        // VERIF_SHOW_PANICS=1: debugging aid for harness authors (panics are otherwise only logged)
+        if std::env::var_os("VERIF_SHOW_PANICS").is_some() {
+            eprintln!("{info}");
+        }
+    }));
     std::fs::create_dir_all(&args.out).expect("out dir");
 
     let mut em = Emitter::new();
